@@ -21,3 +21,6 @@ open IrVerif.Layout
 #print axioms C07_placement_shard
 #print axioms C07_model_restored
 #print axioms C07_mid_is_repointed
+#print axioms C07_roundtrip
+#print axioms C07_dataFiles_schedule
+#print axioms C07_filename_dir
